@@ -89,7 +89,12 @@ class GetBits(Contract):
         w.pre.update(lo=lo, hi=hi, case=case)
         key = {"int": lo, "list": w.list(list(range(lo, hi))), "slice": slice(lo, hi), "slice1": slice(lo, hi, 1),
                "name": "field"}[case]
-        return Call(("func", "canopen.variable", "Bits._get_bits"), [key])
+        # called the way Bits.__getitem__ / __setitem__ call it (through an instance of a 32-bit variable's view), so that
+        # the helper may be a static or an instance method
+        var = mkvar(w, {"field": w.list(list(range(lo, hi)))})
+        holder = w.obj("env.stubs:RawVar", od=var, value=0)
+        bits = w.obj("canopen.variable:Bits", variable=holder, raw=0)
+        return Call(("method", bits, "_get_bits"), [key])
 
     @staticmethod
     def ok(s):
